@@ -53,8 +53,9 @@ def _get_parser():
         _parser_cache = pycparser.CParser()
     return _parser_cache
 
-_simple_escapes = {'n': 10, 't': 9, 'r': 13, '0': 0, 'a': 7, 'b': 8,
-                   'f': 12, 'v': 11}
+_simple_escapes = {'n': 10, 't': 9, 'r': 13, 'a': 7, 'b': 8, 'f': 12, 'v': 11,
+                   '0': 0, '1': 1, '2': 2, '3': 3, '4': 4, '5': 5, '6': 6,
+                   '7': 7}
 
 def _workaround_for_old_pycparser(csource):
     # Workaround for a pycparser issue (fixed between pycparser 2.10 and
